@@ -203,7 +203,7 @@ class RxScenario:
         self.disc = None
         self.disc_fired = False
         self.nontrivial = False
-        self.consumer = loop.create_task(self._consume()) if cfg["reads"] else None
+        self.consumer = None  # started by the environment event "reader": reads may begin before, between or after arrivals
 
     async def _consume(self):
         for _ in range(self.cfg["reads"]):
@@ -223,6 +223,8 @@ class RxScenario:
 
     def enabled(self) -> list:
         evs = []
+        if self.cfg["reads"] and self.consumer is None:
+            evs.append("reader")
         if self.next < len(self.seq) and not self.disc_fired:
             evs.append(f"arrive:{self.seq[self.next]}")
         if self.cfg["disconnect"] and not self.disc_fired:
@@ -240,6 +242,8 @@ class RxScenario:
             else:
                 topic, payload = ARRIVALS[sym]
                 assert self.fake.deliver(topic, payload)
+        elif label == "reader":
+            self.consumer = self.loop.create_task(self._consume())
         elif label == "disconnect":
             self.disc_fired = True
             self.nontrivial = True
@@ -250,6 +254,8 @@ class RxScenario:
             return False
         if self.cfg["disconnect"]:
             return self.disc_fired and self.disc.done()
+        if self.cfg["reads"] and self.consumer is None:
+            return False
         return self.next >= len(self.seq) and (self.consumer is None or self.consumer.done())
 
     def verdict(self, hang: bool) -> list:
